@@ -186,8 +186,12 @@ def check(case) -> Outcome:
                                           f"the reference has {show_rows(expected)}", nontrivial=nontrivial, classes=classes,
                         features=feats)
     # `an` for the same description (built freshly)
-    an_built = build_query(eff, objs, quant="an")
-    an_rows = rows_of(an_built, list(an_built.q.evaluate()))
+    try:
+        an_built = build_query(eff, objs, quant="an")
+        an_rows = rows_of(an_built, list(an_built.q.evaluate()))
+    except Exception as e:
+        return fail("exception", f"an(...) for the same description: {type(e).__name__}: {e}", nontrivial=nontrivial,
+                    classes=classes, features=feats)
     if len(an_rows) != n:
         return fail("an_count", f"an(...) yields {len(an_rows)} rows {show_rows(an_rows)} but the reference has {n}: "
                                 f"{show_rows(expected)}", nontrivial=nontrivial, classes=classes, features=feats)
